@@ -677,6 +677,41 @@ func floatLiterals(tier string) []string {
 			}
 		}
 	}
+	// integer midpoints: plain-digit literals at and next to the midpoint of adjacent float32 / float64 values
+	// (a plain integer literal may take an integer fast path and be rounded twice)
+	for exp := uint32(150); exp <= 196; exp++ { // float32 values 2^23 .. 2^69
+		for _, m := range mants {
+			lo := math.Float32frombits(exp<<23 | m)
+			hi := math.Nextafter32(lo, float32(math.Inf(1)))
+			bl, _ := new(big.Float).SetFloat64(float64(lo)).Int(nil)
+			bh, _ := new(big.Float).SetFloat64(float64(hi)).Int(nil)
+			sum := new(big.Int).Add(bl, bh)
+			if sum.Bit(0) != 0 {
+				continue
+			}
+			mid := sum.Rsh(sum, 1)
+			for d := int64(-3); d <= 3; d++ {
+				out = append(out, new(big.Int).Add(mid, big.NewInt(d)).String())
+			}
+		}
+	}
+	mants64 := []uint64{0, 1, 2, 1<<52 - 1, 1<<52 - 2, 1 << 51, 1<<51 - 1, 0x5555555555555, 0xAAAAAAAAAAAAA}
+	for exp := uint64(1075); exp <= 1092; exp++ { // float64 values 2^52 .. 2^69
+		for _, m := range mants64 {
+			lo := math.Float64frombits(exp<<52 | m)
+			hi := math.Nextafter(lo, math.Inf(1))
+			bl, _ := new(big.Float).SetFloat64(lo).Int(nil)
+			bh, _ := new(big.Float).SetFloat64(hi).Int(nil)
+			sum := new(big.Int).Add(bl, bh)
+			if sum.Bit(0) != 0 {
+				continue
+			}
+			mid := sum.Rsh(sum, 1)
+			for d := int64(-2); d <= 2; d++ {
+				out = append(out, new(big.Int).Add(mid, big.NewInt(d)).String())
+			}
+		}
+	}
 	out = append(out, "9000000000000.0000001", "9000000000.0000001", "1.0000000596046447753906250000000000000000000000001", "16777217", "16777217.0000000001", "16777216.9999999999",
 		"3.4028235677973366e38", "3.4028234663852886e38", "3.4028235e38", "3.4028236e38", "1e39", "-1e39", "1e-46", "7.0064923216240854e-46", "7.00649232162408535e-46", "1.401298464324817e-45",
 		"1.7976931348623157e308", "1.7976931348623158e308", "1.7976931348623159e308", "1e309", "4.9e-324", "2.4703282292062327e-324", "2.4703282292062328e-324", "2.2250738585072011e-308", "0.1", "0.3", "1e23", "8.41e21", "9007199254740993", "9007199254740992.5", "0.000001", "123456789012345678901234567890")
@@ -684,7 +719,7 @@ func floatLiterals(tier string) []string {
 }
 
 func Run(r *evid.Run) {
-	r.Rule("formatting: float32 bit patterns (thorough: all 2^32; quick: 255 exponents x mantissa patterns), float64 grid of all 2047 exponents x mantissa patterns plus ulp-neighbourhoods of every power of ten and of the 1e-6/1e21 layout switches - AppendFloat must equal the ECMA-262 layout of strconv's shortest digits and parse back to identical bits; the same through Marshal/Token paths; int64/uint64 boundary values printed exactly. Parsing: every integer within +-R of every signed/unsigned width bound and of 10^19/10^20, in plain/.0/e0/E+0/.5/negated spellings, 19-22 digit strings around 2^63, 2^64 and the 21-digit wrap-around class, and float literals built on float32 midpoints (exact midpoint, midpoint +- 1e-25 relative) - unmarshaled into every int/uint/float type bare, string-tagged, with StringifyNumbers and as map key, against math/big range arithmetic / strconv.ParseFloat; Token.Int/Uint/Float on the same literals against the documented truncation/saturation and ErrSyntax/ErrRange classes. evaluations = conversions checked; distinct_nontrivial = distinct (value|literal, type, context) conversions")
+	r.Rule("formatting: float32 bit patterns (thorough: all 2^32; quick: 255 exponents x mantissa patterns), float64 grid of all 2047 exponents x mantissa patterns plus ulp-neighbourhoods of every power of ten and of the 1e-6/1e21 layout switches - AppendFloat must equal the ECMA-262 layout of strconv's shortest digits and parse back to identical bits; the same through Marshal/Token paths; int64/uint64 boundary values printed exactly. Parsing: every integer within +-R of every signed/unsigned width bound and of 10^19/10^20, in plain/.0/e0/E+0/.5/negated spellings, 19-22 digit strings around 2^63, 2^64 and the 21-digit wrap-around class, float literals built on float32 midpoints (exact midpoint, midpoint +- 1e-25 relative) and plain-digit integer literals within +-3 of every float32/float64 midpoint between 2^23 and 2^69 (9 mantissa patterns per exponent) - unmarshaled into every int/uint/float type bare, string-tagged, with StringifyNumbers and as map key, against math/big range arithmetic / strconv.ParseFloat; Token.Int/Uint/Float on the same literals against the documented truncation/saturation and ErrSyntax/ErrRange classes. evaluations = conversions checked; distinct_nontrivial = distinct (value|literal, type, context) conversions")
 	r.Assume("strconv.ParseFloat / AppendFloat shortest digits are correct", "math/big")
 	float32Sweep(r)
 	float64Grid(r)
